@@ -305,6 +305,11 @@ def check(run):
     ob_window_arith(run, "O10.1b")
     from . import C13
     C13.ob_last_slice_prune(run, "O10.1c")
+    from . import C14
+    C14.ob_create_proof_guard(run, "O10.1d")
+    from . import C11
+    C11.ob_validated_set(run, "O10.1e")
+    C11.ob_coder_reset(run, "O10.1f")
     ob_validate_then_use(run, "O10.2")
     ob_sanitise_tx(run, "O10.3")
     ob_lock_order(run, "O10.4")
